@@ -228,6 +228,29 @@ class Cmp:
                 self.expect_add(c, cnt[1], None, name, None)
             return
         c = self.take(cs, f"array `{name}`")
+        if c["k"] == "len=" and cs and cs[0]["k"] == "for" and cs[0].get("extra_bound") == "len":
+            c = self.take(cs, f"array `{name}`")
+        if c["k"] == "for" and c.get("extra_bound"):
+            # an additional bound on the loop counter is harmless only while it cannot cut the walk short
+            if c["extra_bound"] != "len":
+                raise Mismatch(f"line {c['line']}: the loop over `{name}` is additionally bounded by `{c['extra_bound']}`")
+            if self.in_zlib:
+                raise Mismatch(f"line {c['line']}: the loop over `{name}` inside a decompressed block is bounded by the remaining length of the outer packet")
+
+            def clobbers(items):
+                for x in items:
+                    if x["k"] == "len=":
+                        return x["line"]
+                    for sub in ([x.get("items")] if x.get("items") else []) + [a[1] for a in x.get("arms", [])] + ([x["else"]] if x.get("else") else []) + list((x.get("versions") or {}).values()):
+                        r = clobbers(sub)
+                        if r:
+                            return r
+                return None
+
+            line = clobbers(c["items"])
+            if line:
+                raise Mismatch(f"line {c['line']}: the loop over `{name}` is also bounded by the shared scratch variable `len`, which is reassigned inside the loop body (line {line}): "
+                               "after the first element the bound is the remaining length of an inner array, so the loop ends early and the remaining elements are never walked")
         if cnt[0] == "endless":
             want_end = "compression_end" if self.in_zlib else "offset_packet_end"
             if c["k"] != "while" or c["end"] != want_end:
